@@ -89,12 +89,13 @@ PROPS["C19"] = dict(
          "copies; a read must answer like the wrapped store in one of the states it may observe (real-time bounds from the event sequence); a third of these runs are hot-spot runs: every reader "
          "repeats one read about a triple the writer adds or removes, through the writer's handle. (c) faulty wrapped driver (30% of the sequential cases): a simulated driver sits between the "
          "memoizer and the memory store and fails the next call of chosen operations (write refused; lookup fails before the first element or after j elements; Exist fails): the wrapper must "
-         "report the failure, may have delivered only a prefix of the answer, and every later read must again equal the wrapped store. "
+         "report the failure, may have delivered only a prefix of the answer, and every later read must again equal the wrapped store. Caller-side faults in the same configuration: the context "
+         "is cancelled inside a wrapped driver call, or by the consumer after it has received j elements (memo hit or miss) - the read may fail with a prefix or complete, it never reports success for a part. "
          "Non-trivial: (a) a read after a write, (b) a read overlapping a write with at least one scheduling decision, (c) a read after a fired fault; distinct = distinct histories x pick sequences",
     components_real=["storage/memoization (real code, instrumented scratch copy)", "storage/memory (real code, instrumented scratch copy)"],
     components_stub=["clients and drainers (harness tasks)", "seeded scheduler in a synctest bubble (x/sim)"],
     assumptions=["a RemoveTriples batch may become visible triple by triple (C07 allows it); its intermediate states count as observable",
-                 "context cancellation inside the memoizer is exercised by C08 / C20 (caller-cancel fault under the memoized configuration), not here"],
+                 "context cancellation at arbitrary engine statements inside the memoizer is exercised by C08 / C20 and the cancel knob of the query checks; here it is planted inside a wrapped driver call or after j received elements"],
 )
 
 ENGINE_REAL = ["bql/lexer, bql/grammar (parser, LLk), bql/semantic (hooks, statement) - real code",
@@ -110,7 +111,7 @@ PROPS["C20"] = dict(
     rule="seeded corpus of statements (SELECT with 1-3 clauses of every driver lookup shape incl. OPTIONAL, GROUP BY / ORDER BY / LIMIT / global bounds; INSERT; DELETE; "
          "CREATE; DROP; CONSTRUCT / DECONSTRUCT with and without ';' reification; SHOW) over 1-3 graphs; per statement one fault-free run under tape T records the driver "
          "call trace c1..cn, then ONE RUN PER (call position, mode) under the same tape with that single fault: non-streaming calls fail; streaming calls fail before the "
-         "first element and after j delivered elements (j in {1, 2, n/2, n-1, n}); the caller's context is cancelled when the call starts and after j elements (j in {1, n}); a SLOW call (the call takes 1-6 simulated seconds before it answers, or streams with a simulated second before each of its first elements: the statement must behave exactly as in the "
+         "first element and after j delivered elements (j in {1, 2, n/2, n-1, n}), once more with the error reported late (channel closed first, the error two simulated seconds afterwards); the caller's context is cancelled when the call starts and after j elements (j in {1, n}); a SLOW call (the call takes 1-6 simulated seconds before it answers, or streams with a simulated second before each of its first elements: the statement must behave exactly as in the "
          "fault-free run - same success / failure, same rows - and return); plus sampled double faults. "
          "The simulated driver is context-ignoring (like storage/memory) or context-aware (returns ctx.Err() once the context is done: cancellation by the caller or by the engine's own errgroup "
          "then turns into further driver errors), a per-case knob. The prefix of the call trace up to the fault must equal the "
